@@ -1,8 +1,10 @@
 #!/bin/bash
 # Builds the engine offline from the module cache.
 set -e
-cd /verif/engine
+HERE="$(dirname "$(readlink -f "$0")")"
+export VERIF_DIR="$HERE"
+cd "$HERE/engine"
 export GOFLAGS=-mod=mod GOPROXY=off GOSUMDB=off GOTOOLCHAIN=local
-mkdir -p /verif/bin /verif/evidence
-go build -o /verif/bin/gosmt ./cmd/gosmt
-cd /verif && ./bin/gosmt selftest
+mkdir -p "$HERE/bin" "$HERE/evidence"
+go build -o "$HERE/bin/gosmt" ./cmd/gosmt
+cd "$HERE" && ./bin/gosmt selftest
